@@ -27,9 +27,15 @@ def run(ctx_or_args):
     return _run(ctx_or_args)
 
 
-def build(d, src, envvars, strict=True):
+def build(d, src, envvars, strict=True, extra=None):
     with open(os.path.join(d, "p.ucg"), "w") as f:
         f.write(src)
+    for fn in ("lib.ucg", "lib2.ucg"):
+        if os.path.exists(os.path.join(d, fn)):
+            os.unlink(os.path.join(d, fn))
+    for fn, text in (extra or {}).items():
+        with open(os.path.join(d, fn), "w") as f:
+            f.write(text)
     for n in os.listdir(d):
         if n.endswith(".json"):
             os.unlink(os.path.join(d, n))
@@ -47,6 +53,24 @@ def build(d, src, envvars, strict=True):
         except ValueError:
             art = {"undecodable": raw[:200].decode("utf-8", "replace")}
     return rc, err.decode("utf-8", "replace"), art
+
+
+# every place a program can read env from: (name, main file with @E@ or None, {other file: text with @E@})
+PLACES = [
+    ("function-body", "let f = func (n) => @E@;\nout json {v = f(1)};\n", {}),
+    ("module-body", "let m = module {} => { let r = @E@; };\nout json {v = m{}.r};\n", {}),
+    ("map-callback", "out json {v = map(func (i) => @E@, [0]).0};\n", {}),
+    ("reduce-callback", "out json {v = reduce(func (acc, i) => @E@, NULL, [0])};\n", {}),
+    ("tuple-field", "let t = {k = @E@};\nout json {v = t.k};\n", {}),
+    ("select-arm", "out json {v = select (\"a\") => {a = @E@}};\n", {}),
+    ("format-argument", "out json {v = \"@\" % (@E@)};\n", {}),
+    ("imported-file", "let l = import \"./lib.ucg\";\nout json {v = l.r};\n", {"lib.ucg": "let r = @E@;\n"}),
+    ("imported-file-inline", "out json {v = (import \"./lib.ucg\").r};\n", {"lib.ucg": "let r = @E@;\n"}),
+    ("function-in-imported-file", "let l = import \"./lib.ucg\";\nout json {v = l.f(1)};\n", {"lib.ucg": "let f = func (n) => @E@;\n"}),
+    ("module-in-imported-file", "let l = import \"./lib.ucg\";\nlet m = l.m;\nout json {v = m{}.r};\n", {"lib.ucg": "let m = module {} => { let r = @E@; };\n"}),
+    ("imported-by-imported-file", "let l = import \"./lib2.ucg\";\nout json {v = l.r};\n",
+     {"lib2.ucg": "let k = import \"./lib.ucg\";\nlet r = k.r;\n", "lib.ucg": "let r = @E@;\n"}),
+]
 
 
 def sel(name, quoted):
@@ -83,6 +107,28 @@ def work(chunk):
                 else:
                     if rc != 0 or not isinstance(art, dict) or "v" not in art or art["v"] is not None:
                         bad = ("read-unset-nostrict:not-null", {"rc": rc, "artifact": art, "stderr": err[-300:]})
+            elif kind == "read-from":
+                place, name, quoted, strict = prm
+                _, main, extra = [p for p in PLACES if p[0] == place][0]
+                e = sel(name, quoted)
+                rc, err, art = build(d, main.replace("@E@", e), envv, strict, {fn: t.replace("@E@", e) for fn, t in extra.items()})
+                want = envv.get(name)
+                if place == "format-argument" and want is not None:
+                    want = want
+                if want is not None:
+                    if rc != 0 or not isinstance(art, dict) or art.get("v") != want:
+                        bad = ("read-from:%s:set:%s" % (place, "value-altered" if rc == 0 else "fails"), {"expected": want, "artifact": art, "rc": rc, "stderr": err[-300:]})
+                elif strict:
+                    if rc != 1:
+                        bad = ("read-from:%s:unset-strict:exit-%s" % (place, rc), {"artifact": art, "stderr": err[-300:]})
+                    elif name not in err:
+                        bad = ("read-from:%s:unset-strict:diagnostic-does-not-name-variable" % place, {"stderr": err[-400:]})
+                    elif NONCE in err:
+                        bad = ("read-from:%s:unset-strict:diagnostic-discloses-other-variables" % place, {"stderr": err[-600:]})
+                else:
+                    null_v = "NULL" if place == "format-argument" else None
+                    if rc != 0 or not isinstance(art, dict) or "v" not in art or art["v"] != null_v:
+                        bad = ("read-from:%s:unset-nostrict:not-null" % place, {"rc": rc, "artifact": art, "stderr": err[-300:]})
             elif kind == "program":
                 name, src, expect, strict = prm
                 rc, err, art = build(d, src, envv, strict)
@@ -116,6 +162,19 @@ PROGRAMS = [
     ("env-inside-module", "let m = module {} => { let r = env.A; };\nout json {v = m{}.r};\n", "setA"),
     ("env-in-select", "out json {v = select (env.A, \"d\") => {setA = \"hit\"}};\n", "hit"),
     ("whole-env-not-shadowed-by-field", "let t = {env = {A = \"no\"}};\nout json {v = env.A};\n", "setA"),
+    # every other construct that binds a name
+    ("function-parameter-env", "let f = func (env) => env.A;\nout json {v = f({A = \"shadow\"})};\n", "error"),
+    ("second-function-parameter-env", "let f = func (n, env) => env.A;\nout json {v = f(1, {A = \"shadow\"})};\n", "error"),
+    ("map-callback-parameter-env", "out json {v = map(func (env) => env.A, [{A = \"shadow\"}]).0};\n", "error"),
+    ("filter-callback-parameter-env", "out json {v = filter(func (env) => env.A == \"shadow\", [{A = \"shadow\"}])};\n", "error"),
+    ("reduce-accumulator-parameter-env", "out json {v = reduce(func (env, i) => env.A, {A = \"shadow\"}, [0])};\n", "error"),
+    ("reduce-item-parameter-env", "out json {v = reduce(func (acc, env) => env.A, NULL, [{A = \"shadow\"}])};\n", "error"),
+    ("tuple-map-callback-parameter-env", "out json {v = map(func (k, env) => [k, env.A], {x = {A = \"shadow\"}})};\n", "error"),
+    ("module-body-let-env", "let m = module {} => { let env = {A = \"shadow\"}; let r = env.A; };\nout json {v = m{}.r};\n", "error"),
+    ("constraint-statement-env", "constraint env = 1 | 2;\nout json {v = env.A};\n", "error"),
+    ("constrained-let-env", "let env :: {} = {A = \"shadow\"};\nout json {v = env.A};\n", "error"),
+    ("import-bound-to-env", "let env = import \"std/lists.ucg\";\nout json {v = env.A};\n", "error"),
+    ("function-named-env", "let env = func (n) => n;\nout json {v = env(1)};\n", "error"),
 ]
 
 
@@ -147,6 +206,12 @@ def cases(thorough):
         yield ("read-set", big, ("V%02d" % i, False, True))
     yield ("read-unset", big, ("V99", False, True))
     yield ("read-unset", big, ("V99", False, False))
+    # (3b) every place env can be read from x set / unset x bare / quoted x strict / --no-strict
+    for place, _, _ in PLACES:
+        for name in ("A", "ZZ_UNSET"):
+            for quoted in (False, True):
+                for strict in (True, False):
+                    yield ("read-from", {"A": "setA", "X1": "other"}, (place, name, quoted, strict))
     # (4) programs
     for name, src, expect in PROGRAMS:
         for strict in (True, False):
@@ -159,9 +224,11 @@ def _run(ctx):
     ctx.bounds = {"names": len(NAMES), "subset_size": 3, "value_length": 3 if thorough else 2, "alphabet": len(ALPHA), "programs": len(PROGRAMS)}
     ctx.rule = ("environments passed explicitly to the real binary: every subset of <= 3 of 6 variable names x every name read (bare and quoted "
                 "selector) x strict/--no-strict; every value of length <= %d over 9 shell-significant characters plus a Unicode/long pool on one "
-                "variable; one 20-variable environment; %d programs binding or naming env in every documented position; a secret is planted in "
+                "variable; one 20-variable environment; a set and an unset name read from %d further places (function / module body, callbacks, "
+                "tuple field, select arm, format argument, an imported file, a function / module defined in an imported file, a file imported "
+                "by an imported file) x bare/quoted x strict/--no-strict; %d programs binding or naming env with every binding construct; a secret is planted in "
                 "an unrelated variable in every run. All cases distinct; non-trivial = the binary ran and its artifact / diagnostic was judged." % (
-                    3 if thorough else 2, len(PROGRAMS)))
+                    3 if thorough else 2, len(PLACES), len(PROGRAMS)))
     viol = []
     for part in core.pmap(work, cs, chunk=12):
         ctx.count(part["evals"], part["evals"])
